@@ -96,6 +96,9 @@ func c15RuleSets() []c15RuleSet {
 			Paths: []string{"/open", "/closed", "/closed/door", "/closed/window", "/g", "/legacy", "/other", "/"}, Literals: []string{"/open", "/closed/door"}},
 		{Name: "extensions", Flags: []string{"--skip-auth-route=GET=\\.(css|js)$", "--skip-auth-route=^/public/"},
 			Paths: []string{"/a.css", "/a.js", "/a.jsx", "/admin/users", "/public/x", "/admin/public/x", "/x/public/", "/"}, Literals: []string{"theme=dark.css", "/public/", "a.js"}},
+		// legacy --skip-auth-regex values are bare regular expressions: an '=' or '!=' inside them is part of the expression
+		{Name: "legacy-regex-with-equals", Flags: []string{"--skip-auth-regex=^/download/[A-Za-z0-9_=-]+$", "--skip-auth-regex=^/k=v/", "--skip-auth-regex=^/cmp/a!=b$", "--skip-auth-regex=POST=^/hooks/", "--skip-auth-regex=GET!=^/never"},
+			Paths: []string{"/download/ab", "/download/a=b", "/download/a=b/c", "/download/", "/k=v/x", "/k=v", "/kv/x", "/cmp/a!=b", "/cmp/a=b", "/cmp/a", "/hooks/x", "/POST=/hooks/", "/never", "/ever", "/"}, Literals: []string{"/k=v/", "a!=b"}},
 		{Name: "no-rules", Flags: []string{},
 			Paths: []string{"/public", "/secret", "/"}, Literals: []string{"/public", ".*"}},
 	}
@@ -364,6 +367,7 @@ func c15NetSets() []c15NetSet {
 		{"v6", []string{"2001:db8::/120", "2001:db8::800/117", "2001:db8::401/128"}},
 		{"mixed", []string{"192.168.4.0/23", "2001:db8::400/118", "::ffff:192.168.8.0/120", "2001:db8::fff"}},
 		{"all-v6", []string{"::/0"}},
+		{"loopback", []string{"127.0.0.1", "127.0.0.0/8", "::ffff:127.0.0.1", "::1", "0.0.0.0/0", "::/0"}},
 		// nested networks sharing their base address, the narrower one listed first (and an IPv4-mapped spelling of a nested one)
 		{"nested-same-base", []string{"192.168.0.0/24", "192.168.0.0/21", "2001:db8::/124", "2001:db8::/118", "::ffff:192.168.8.0/120", "192.168.8.0/22", "192.168.12.0", "192.168.12.0/23"}},
 	}
@@ -549,6 +553,25 @@ func c15Addresses(run *vfRun, w *vfWorld) {
 			try("x-real-ip-port", rpReal, vfGET("/x", "X-Real-IP", hostport).From("198.51.100.7:1"), sub && i%4 == 0)
 			try("xff-list", rpXFF, vfGET("/x", "X-Forwarded-For", s+", 10.9.9.9").From("198.51.100.7:1"), sub)
 		})
+		// a peer WITHOUT an IP address (unix-socket listener: net/http reports "@"; other unparsable forms) is not inside any
+		// network, whatever the networks are (loopback included) — reverse-proxy mode off, so no header can supply an address
+		for _, peer := range []string{"@", "unix", "localhost:80", ":80", "[::1", "garbage", " ", "@:0", "/run/oauth2-proxy.sock"} {
+			for _, tgt := range []string{"/x", "/oauth2/auth"} {
+				id := fmt.Sprintf("c15p-%s-%d", ns.Name, len(peer)*7+len(tgt))
+				req := vfGET(tgt, "X-Vf-Id", id, "X-Real-IP", "127.0.0.1", "X-Forwarded-For", "127.0.0.1").From(peer)
+				resp := direct.Do(req)
+				if resp.Invalid != "" {
+					continue
+				}
+				got := (resp.Code == 200 && len(w.Up.FindHit(id)) > 0) || (tgt == "/oauth2/auth" && resp.Code == 202)
+				run.Eval(fmt.Sprintf("%s|peer-without-address|%q|want=false", ns.Name, peer))
+				run.Count("addressless_peer_requests", 1)
+				if got {
+					run.Violation("c15:addressless-peer-exempted", fmt.Sprintf("networks %v, reverse-proxy off, peer address %q (no IP address): exempted (status %d)", ns.Nets, peer, resp.Code),
+						map[string]interface{}{"flags": direct.Flags, "request": req, "status": resp.Code})
+				}
+			}
+		}
 		// reverse-proxy mode without the header: the unchanged tree treats the client address as unknown (no exemption).
 		// Falling back to the peer address would be an equally defensible reading, so this is recorded, not judged.
 		for _, ad := range addrs {
